@@ -1,6 +1,7 @@
 package drivers
 
 import (
+	"github.com/spf13/viper"
 	"sort"
 	"fmt"
 	"os"
@@ -208,6 +209,27 @@ func RunConfig(c *Ctx) error {
 				got = leafString(&cfg, l)
 			}
 			c.Tr.Emit("CfgCase", world.F{"field": l.path, "kind": l.kind, "src": src, "want": want, "got": got, "hasflag": hasFlag})
+			// the second entry point, LoadFromViper (an application that brings its own viper, bound to the same flags):
+			// "the same precedence as Load"
+			{
+				cmd := newCmd()
+				got2 := "load-error"
+				if err := cmd.ParseFlags(append([]string{"--home", home}, args...)); err == nil {
+					// the caller's viper holds the home directory and exactly the values it was given on the command
+					// line (as in the package's own use of this entry point)
+					v := viper.New()
+					v.Set(config.FlagRootDir, home)
+					cmd.Flags().Visit(func(f *pflag.Flag) {
+						if f.Name != config.FlagRootDir {
+							v.Set(f.Name, f.Value.String())
+						}
+					})
+					if cfg2, err2 := config.LoadFromViper(v); err2 == nil {
+						got2 = leafString(&cfg2, l)
+					}
+				}
+				c.Tr.Emit("CfgCase", world.F{"field": l.path, "kind": l.kind, "src": src, "want": want, "got": got2, "hasflag": hasFlag, "via": "viper"})
+			}
 		}
 	}
 	// every registered flag reaches the option it names
